@@ -58,6 +58,8 @@ var Types = []T{
 	{19, "UP", "(n 6)", "unsafe-pointer", true, false},
 	// the predeclared error as an ordinary (non-final) value type
 	{20, "error", "iface", "interface", true, false},
+	// a pointer type that implements Shape (also as a nil pointer): handed to interface parameters
+	{21, "*sqp", "(p int)", "pointer", true, false},
 }
 
 // ErrT is a type used where an `error` is expected.
@@ -154,6 +156,27 @@ type Shape interface{ Area() int }
 type sq int
 
 func (s sq) Area() int { return int(s) }
+
+// sqp implements Shape through its POINTER: a nil *sqp inside a Shape is a non-nil interface whose Area is 99.
+type sqp struct{ n int }
+
+func (s *sqp) Area() int {
+	if s == nil {
+		return 99
+	}
+	return s.n
+}
+
+// Zero (set from the op line): zr turns the payload of a marked result into 0 — the stage returns the zero value
+// (a nil pointer) beside a nil error.
+var Zero bool
+
+func zr(n int) int {
+	if Zero {
+		return 0
+	}
+	return n
+}
 
 // UnsafeP is unsafe.Pointer itself (an alias, so that the files of the package need not import unsafe).
 type UnsafeP = unsafe.Pointer
@@ -494,6 +517,21 @@ func ob20(v error) int {
 		return -1
 	}
 	return int(e)
+}
+func mk21(n int) *sqp {
+	if n == 0 {
+		return nil
+	}
+	return &sqp{n}
+}
+func ob21(v *sqp) int {
+	if v == nil {
+		return 0
+	}
+	if v.n == 0 {
+		return -1
+	}
+	return v.n
 }
 func mk16(n int) struct {
 	A int "cell:\"%5d\""
